@@ -16,6 +16,13 @@ A write is *durable* when its sequence number is ≤ `synced_up_to` at the crash
 pairwise distinct, so a read value names its write.  A recovered value is admissible when no
 durable write to the same key began after that write had completed ("latest" is real-time order;
 concurrent writes may be ordered either way).
+
+`judgeCrashAck` does not take the log's own `synced_up_to` as the ground truth for "whose sync had
+completed": it also counts what the *clients* were told.  A write's sync has completed when the sync
+policy answered "sync now" inside that write's `append` and the write went on after the sync latency
+(`syncDone`, observed through the policy object and the operation's progress), or — under
+`SyncEveryWrite` — when its `put()` / `delete()` returned.  An fsync covers every entry appended before
+it, so every write with a sequence number up to the largest such one is durable as well.
 -/
 namespace HappyModel.C15
 open HappyModel.C14
@@ -56,5 +63,15 @@ def judgeCrash (ws : List WRec) (synced : Nat) (r1 r2 r3 : List (Option Nat)) : 
   if r1 != r2 then some "wal/recover-idempotent/second-recover-differs"
   else if r1 != r3 then some "wal/recover-idempotent/second-crash-recover-differs"
   else (r1.zipIdx).findSome? fun (x, k) => (judgeKey ws synced k x).map fun s => s!"{s} key {k}"
+
+/-- the highest WAL sequence number whose sync the clients saw complete: writes whose `append` was told to
+    sync and went on afterwards (`syncDone`, by operation id), and under `SyncEveryWrite` every write that returned -/
+def ackBound (every : Bool) (ws : List WRec) (syncDone : List Nat) : Nat :=
+  (ws.filter fun w => syncDone.contains w.id || (every && w.e.isSome)).foldl (fun m w => max m w.seq) 0
+
+/-- `judgeCrash` with durability judged from acknowledgements as well as from `synced_up_to` -/
+def judgeCrashAck (every : Bool) (ws : List WRec) (syncDone : List Nat) (synced : Nat)
+    (r1 r2 r3 : List (Option Nat)) : Option String :=
+  judgeCrash ws (max synced (ackBound every ws syncDone)) r1 r2 r3
 
 end HappyModel.C15
